@@ -965,3 +965,68 @@ theorem fold_stepInv (E : List Entry) : ∀ inv0 : Mapping,
       simp [outKey, hh.1, hh.2.1, hh.2.2]
 
 end EupsModel.Manifest
+
+namespace EupsModel.Manifest
+
+/-! ### the server's cache never changes an answer -/
+
+/-- every cached list is what parsing the file for its key gives -/
+def CacheOk (files : List (Str × Str)) (c : TagCache) : Prop :=
+  ∀ k t, cacheGet c k = some t → parseList files k.1 k.2 = .ok t
+
+theorem cacheOk_nil (files : List (Str × Str)) : CacheOk files [] := by
+  intro k t h; simp [cacheGet] at h
+
+/-- the answer of a server object that has never been asked anything -/
+def freshAnswer (files : List (Str × Str)) (r : Req) : Ans :=
+  match parseList files r.tag r.flavor with
+  | .error e => .err e
+  | .ok t => answerFrom r t
+
+theorem serve1_fresh (files : List (Str × Str)) (r : Req) : (serve1 false files [] r).1 = freshAnswer files r := by
+  unfold serve1 getTaggedProductList freshAnswer
+  simp only [cacheGet]
+  cases parseList files r.tag r.flavor with
+  | error e => rfl
+  | ok t => rfl
+
+theorem serve1_spec (files : List (Str × Str)) (c : TagCache) (r : Req) (hc : CacheOk files c) :
+    (serve1 false files c r).1 = freshAnswer files r ∧ CacheOk files (serve1 false files c r).2 := by
+  unfold serve1 getTaggedProductList freshAnswer
+  simp only [cacheKey, Bool.false_eq_true, if_false]
+  cases hg : cacheGet c (r.tag, r.flavor) with
+  | some t =>
+    have hpl := hc (r.tag, r.flavor) t hg
+    simp only at hpl
+    rw [hpl]
+    exact ⟨rfl, hc⟩
+  | none =>
+    cases hp : parseList files r.tag r.flavor with
+    | error e => exact ⟨rfl, hc⟩
+    | ok t =>
+      refine ⟨rfl, ?_⟩
+      intro k t' hk
+      simp only [cacheGet] at hk
+      by_cases hkk : (r.tag, r.flavor) = k
+      · simp only [hkk, if_true, Option.some.injEq] at hk
+        subst hk; subst hkk
+        exact hp
+      · simp only [hkk, if_false] at hk
+        exact hc k t' hk
+
+theorem cacheAfter_ok (files : List (Str × Str)) (history : List Req) : ∀ c, CacheOk files c →
+    CacheOk files (cacheAfter false files c history) := by
+  induction history with
+  | nil => intro c hc; exact hc
+  | cons r rs ih => intro c hc; exact ih _ (serve1_spec files c r hc).2
+
+theorem serve_eq_fresh (files : List (Str × Str)) (reqs : List Req) : ∀ c, CacheOk files c →
+    serve false files c reqs = reqs.map (freshAnswer files) := by
+  induction reqs with
+  | nil => intro c _; rfl
+  | cons r rs ih =>
+    intro c hc
+    have h := serve1_spec files c r hc
+    simp only [serve, List.map_cons, h.1, ih _ h.2]
+
+end EupsModel.Manifest
